@@ -3,7 +3,7 @@ import io
 import itertools
 from .. import model, sweep, codecs
 from ..runner import Result
-from ..bridge import build, quiet, all_nodes
+from ..bridge import build, quiet, all_nodes, cli_options
 
 from trees import treeoutput
 
@@ -55,7 +55,7 @@ def map_parens(s):
 def decorate_label(label, edge, is_cons, flags, opts):
     out = label
     if 'gf' in opts and edge is not None and not edge.startswith('-') and (is_cons or 'gf_terminals' in opts):
-        out += (opts.get('gf_separator') or '-') + edge
+        out += (str(opts['gf_separator']) if 'gf_separator' in opts else '-') + edge
     if 'mark_heads_marking' in opts and flags['head']:
         out += "'"
     if 'boyd_split_marking' in opts and flags['split']:
@@ -124,6 +124,7 @@ def option_subsets(fmt, dev):
             yield {k: ('#' if k == 'gf_separator' else True) for k in sub}
     if fmt in ('export', 'brackets', 'discobrackets'):
         yield {'gf': True, 'gf_terminals': True, 'gf_separator': '#'}
+        yield {'gf': True, 'gf_separator': 0}       # `--dest-opts gf gf_separator:0`
         yield {k: True for k in LABEL_OPTS}
 
 
@@ -188,9 +189,10 @@ def check_one(mtj, none, fmt, opts, order=None):
     disc = model.mt_tree_gap_degree(mt.root) > 0
     stream = io.StringIO()
     try:
-        getattr(treeoutput, fmt + '_begin')(stream, **opts)
-        getattr(treeoutput, fmt)(t, stream, **opts)
-        getattr(treeoutput, fmt + '_end')(stream, **opts)
+        lib_opts = cli_options(opts)        # as --dest-opts gives them; expectations use `opts`
+        getattr(treeoutput, fmt + '_begin')(stream, **lib_opts)
+        getattr(treeoutput, fmt)(t, stream, **lib_opts)
+        getattr(treeoutput, fmt + '_end')(stream, **lib_opts)
         err = None
     except Exception as e:
         err = e
